@@ -116,9 +116,11 @@ func runC03(c *Ctx) {
 	}
 	c.Rule("C03.W", "writer types do not grow optional net/http interfaces", 4)
 	ruleWriterMethodSets(c, p, "C03.W")
-	c.Rule("C03.S", "status and body pass through the wrappers and the proxy unchanged", 12)
+	c.Rule("C03.S", "status and body pass through the wrappers and the proxy unchanged", 15)
 	ruleStatusBodyPassThrough(c, p, "C03.S")
 	ruleBodyStreamEndsCleanly(c, p, "C03.S")
+	ruleServerTrailersAfterBody(c, p, "C03.S")
+	ruleNoMutationOfHTTPDefaults(c, p, "C03.S")
 }
 
 // ---- C03.T
@@ -883,4 +885,67 @@ func ruleBodyStreamEndsCleanly(c *Ctx, p *Prog, rule string) {
 		})
 	}
 	c.Check(rule, "streaming-writer:no-self-made-body-error", p, f.Pos(), bad == "", fmt.Sprintf("%d PipeWriter.CloseWithError call(s) in agent/utils: none aborts the relayed body with an error of the writer's own", n), "the write end of the relayed body is closed with an error by "+bad+": a response the backend completed (e.g. 304 or HEAD-like with Content-Length, a short body) reaches the proxy as an aborted upload and the client gets no status, headers or body")
+}
+
+// ruleServerTrailersAfterBody: the stand-alone proxy publishes the trailers of the response on
+// every path that copied its body — an early return after a failed or "failed" copy (a pipe
+// closed a moment early reports io.ErrClosedPipe, not EOF) silently drops them — and the
+// agent-facing upload handler closes only its own ends: the original body it saved before the
+// reassignment and the pipe's write end, never whatever resp.Body holds when the handler returns
+// (by then the pipe's read end, which the client-facing handler is still draining).
+func ruleServerTrailersAfterBody(c *Ctx, p *Prog, rule string) {
+	if sv := c.need(p, rule, "server.(*proxy).ServeHTTP"); sv != nil {
+		var cp ssa.Instruction
+		EachInstr(sv, func(i ssa.Instruction) {
+			if IsCall(i, "io.Copy", "io.CopyBuffer", "io.CopyN") {
+				for _, r := range Roots(PArgs(CallOf(i))[1]) {
+					if _, fld, ok := FieldLoad(r); ok && fld == "Body" {
+						cp = i
+					}
+				}
+			}
+		})
+		if cp == nil {
+			c.Unk(rule, "proxy:trailers-follow-the-body-on-every-path", p, sv.Pos(), "no io.Copy of the response body found in the proxy's ServeHTTP")
+		} else {
+			isTrailerLoop := func(i ssa.Instruction) bool {
+				rg, ok := i.(*ssa.Range)
+				if !ok {
+					return false
+				}
+				_, fld, isF := FieldLoad(rg.X)
+				return isF && fld == "Trailer"
+			}
+			hit, path := (&Walk{Target: IsReturn, Avoid: isTrailerLoop, Ctx: sv}).FromInstr(cp)
+			c.Check(rule, "proxy:trailers-follow-the-body-on-every-path", p, cp.Pos(), hit == nil, "every path from the body copy to a return passes the loop over resp.Trailer", "a path from the body copy returns without publishing the trailers ("+PathString(p, path)+"): status, headers and body arrive, the trailer fields are silently lost")
+		}
+	}
+	if f := c.need(p, rule, "server.(*proxy).handleAgentPostResponse"); f != nil {
+		bad := ""
+		n := 0
+		var bodyStore ssa.Instruction
+		EachInstr(f, func(i ssa.Instruction) {
+			if st, ok := i.(*ssa.Store); ok {
+				if base, fld, ok2 := FieldAddrOf(st.Addr); ok2 && fld == "Body" && NamedType(base.Type()) == "net/http.Response" {
+					bodyStore = st
+				}
+			}
+		})
+		for _, fn := range WithClosures(f) {
+			EachInstrRaw(fn, func(i ssa.Instruction) {
+				cc := CallOf(i)
+				if cc == nil || !cc.IsInvoke() || cc.Method.Name() != "Close" {
+					return
+				}
+				n++
+				if base, fld, ok := FieldLoad(cc.Value); ok && fld == "Body" && NamedType(base.Type()) == "net/http.Response" {
+					ld, _ := cc.Value.(ssa.Instruction)
+					if fn != f || bodyStore == nil || ld == nil || !Dominates(ld, bodyStore) {
+						bad = "resp.Body is closed at " + p.Pos(i.Pos()) + " (read when the call runs, i.e. after it was replaced by the pipe's read end)"
+					}
+				}
+			})
+		}
+		c.Check(rule, "proxy:upload-handler-closes-its-own-ends-only", p, f.Pos(), bad == "" && n >= 1, fmt.Sprintf("%d Close call(s) in the upload handler: the saved original body and the pipe's write end", n), "in handleAgentPostResponse "+bad+": the client-facing handler's pending Read then fails with io.ErrClosedPipe instead of EOF — with an error check on that copy the trailers (or more) are dropped")
+	}
 }
